@@ -178,6 +178,36 @@ def extended_search(prop: str, comp: str, mod, tier: str, failing: list) -> dict
     return None
 
 
+# properties whose anchored module is also tied by the translator (checks/py2lean.py + ProcSim/Props/*gen.lean)
+TIE_MODULE = {"C19": "reg_access"}
+
+
+def tie_search(prop: str, comp: str, mod) -> tuple[dict | None, dict | None, int]:
+    """the translator tie no longer checks: look for a concrete failing input with the correspondence machinery at the
+    thorough scope and further seeds.  Returns (first oracle failure, first projection disagreement, cases run)."""
+    base = core.base_seed()
+    first_k, n = None, 0
+    for k in range(0, 1 + getattr(mod, "EXTENDED_SEEDS", 3)):
+        os.environ["VERIF_SEED"] = str(base + 1000 * k)
+        try:
+            cases = mod.cases("thorough")
+            res = flatten(core.pmap(COMPONENTS[comp], "run_case", cases, {"tier": "thorough"}, chunk=getattr(mod, "CHUNK", 50)))
+        finally:
+            os.environ["VERIF_SEED"] = str(base)
+        n += len(res)
+        for r in res:
+            rec = r["props"].get(prop)
+            if not rec or not rec["app"]:
+                continue
+            if rec["o"] is not None:
+                r["seed"] = base + 1000 * k
+                return r, first_k, n
+            if not rec["k"] and first_k is None:
+                r["seed"] = base + 1000 * k
+                first_k = r
+    return None, first_k, n
+
+
 def main() -> int:
     ap = argparse.ArgumentParser()
     ap.add_argument("prop")
@@ -305,6 +335,38 @@ def main() -> int:
                                    "note": "no input was found on which the property's own predicate fails; the property is no longer shown to hold"})
         violations.append((path, " no-failing-input-found"))
 
+    # (4) translator tie: the Lean text regenerated from the current source must still satisfy the equivalence theorems
+    tie, tie_line = None, None
+    if prop in TIE_MODULE:
+        from checks import translator_tie
+
+        tie = translator_tie.check(TIE_MODULE[prop])
+        if tie["status"] in ("broken", "unsupported") and not violations:
+            found_o, found_k, n_deep = tie_search(prop, comp, mod)
+            tie["search"] = {"cases": n_deep, "oracle_failure": found_o is not None, "disagreement": found_k is not None}
+            if found_o is not None and is_known(found_o) is None:
+                path = write_replay(prop, {"property": prop, "kind": "oracle", "failing_clause": found_o["props"][prop]["o"],
+                                           "seed": found_o.get("seed"), "case": found_o["case"], "family": found_o.get("family"),
+                                           "input": found_o.get("input"), "impl": found_o.get("impl"), "model": found_o.get("model"),
+                                           "note": "found by the search started because the translator tie no longer checks",
+                                           "translator_tie": tie})
+                violations.append((path, ""))
+            elif found_k is not None and is_known(found_k) is None:
+                path = write_replay(prop, {"property": prop, "kind": "correspondence",
+                                           "broken": f"T.{TIE_MODULE[prop]} (equivalence theorems generated code = model: {tie.get('broken_declarations') or tie.get('detail')}) "
+                                                     f"and K.{comp}.pi_{prop[1:]} (model and implementation disagree)",
+                                           "theorems_relying_on_it": [t["name"] for t in aud["theorems"]],
+                                           "seed": found_k.get("seed"), "case": found_k["case"], "input": found_k.get("input"),
+                                           "impl": found_k.get("impl"), "model": found_k.get("model"), "translator_tie": tie,
+                                           "note": "no input was found on which the property's own predicate fails; the property is no longer shown to hold"})
+                violations.append((path, " no-failing-input-found"))
+            else:
+                # the hand-written model is still tied to this source by the correspondence (checked above and, just now, at
+                # the thorough scope over further seeds); the stronger tie is unavailable for this tree — said, not hidden
+                tie_line = (f"TIE-DEGRADED property={prop} translator tie for {tie['module']} is {tie['status']} "
+                            f"({(tie.get('broken_declarations') or tie.get('detail'))}); correspondence tie holds on "
+                            f"{evaluated} + {n_deep} cases, no failing input")
+
     # evidence
     n_thm = len(aud["theorems"])
     level = "proof" if n_thm > 0 and aud["ok"] else "other"
@@ -334,6 +396,7 @@ def main() -> int:
         "exhaustive": False,
         "impl_branch_coverage": impl_coverage(comp) if tier == "thorough" else None,
         "kernel_samples": ksamples,
+        "translator_tie": tie,
         "lake_build_s": build_s,
     }
     ev = {"property_id": prop, "tier": tier, "seed": seed, "level": level, "coverage": coverage,
@@ -344,6 +407,8 @@ def main() -> int:
 
     for line in sorted(set(known_lines)):
         print(line)
+    if tie_line:
+        print(tie_line)
     for path, suffix in violations:
         print(f"VIOLATION property={prop} replay={path}{suffix}")
     if not violations:
